@@ -40,21 +40,39 @@ CHECKS = {
    note="partial: the 'non-matching accessor returns an error' and 'strict prefix -> end-of-input' halves are checked by the correspondence oracle only (theorems pending); "
         "typed decoding of the ~100 built-in types is exercised in the C01/C02 streams"),
  "C11": dict(
-   text="Model of Token (encode/decode/len), the Tokenizer iterator and token re-encoding; Lean theorems (in progress, see level_note) that tokenising the encoding of any "
-        "valid wire tree yields one token per head carrying its data-model value, that re-encoding gives the preferred form (identity on preferred input), that "
-        "encoded token lists tokenise back value-equal and that tokenisation of arbitrary bytes yields at most one token per byte. Correspondence: wire trees (preferred and "
-        "non-preferred, indefinite, chunked), all 65536 half patterns except signalling NaNs, all simple values, random token lists (26 variants, boundary payloads), "
-        "arbitrary bytes; judged by the property's own oracle computed from the tree / token list, and compared with the model.",
-   design="5/C11", technique="Lean 4 proof (induction over wire trees / token lists) + differential correspondence with tree-derived oracle",
-   note="the general theorems are being added to lean/Minicbor/Thm/C11.lean; the evidence file lists the theorems audited on each run"),
+   text="Lean theorems (full, no partial fallback) about the model of Token (encode/decode), the Tokenizer iterator and token re-encoding. "
+        "tokenize_encW / tokenize_item: for EVERY sequence of valid wire trees (any head widths, arbitrary nesting, indefinite arrays/maps, chunked strings; followed by arbitrary "
+        "bytes) the tokenizer yields exactly toks(w) - one token per head, integer kind chosen as Decoder::type_of does from the head width and the top bit of the argument, "
+        "payload = the data-model value of the head - and nothing else (mutual induction over WItem / List WItem via a per-head lemma Dec.token(head ++ rest) = ok tok rest). "
+        "token_value: an independent reader itemOfTokens that looks only at token payloads rebuilds value(w) from toks(w). "
+        "tokens_canonicalise / canon_spec / tokens_of_preferred: encodeTokens(tokens(encWs ws)) = encWs(canon ws), where canon ws is valid, has every head preferred, keeps "
+        "indefiniteness and chunking and has the same data-model values; identity on the bytes when ws is already preferred. "
+        "tokens_roundtrip: for every token list with well-formed payloads, tokens(encodeTokens ts) = ts' with ts' pointwise value-equal to ts (integers numerically, everything else "
+        "identical, floats bitwise; intermediate bytes need not be well-formed: Simple(20..31), K1). "
+        "tokenizer_bounded (ARBITRARY bytes): Token::decode never panics and consumes >= 1 byte on success, the iterator's fuel is never exhausted, it yields tokens then at most one "
+        "non-eoi error (last), and #items <= #bytes. half_roundtrip: f32->f16 of f16->f32 is the identity on all 65536 patterns except that signalling NaNs are quieted (kernel-evaluated table). "
+        "Correspondence: wire trees (preferred and non-preferred, indefinite, chunked), all 65536 half patterns except signalling NaNs, all simple values, random token lists "
+        "(26 variants, boundary payloads), arbitrary bytes; judged by the property's own oracle computed from the tree / token list, and compared with the model.",
+   design="5/C11", technique="Lean 4 proof (per-head decode lemmas, mutual structural induction over wire trees, finite half-float table by decide +kernel) + differential correspondence with tree-derived oracle",
+   note="Assumptions stated as hypotheses: token payloads are what the Rust types can hold (Token.ok, slice lengths < 2^64) and - the property's own assumption - an F16 token holds a "
+        "half-representable f32; a signalling half NaN is quieted by the token's f32 payload (canon/quiet16), which is why token_value carries halfQuiet (token_value_canon does not). "
+        "Token::Tag is modelled as its u64; borrowed payloads as byte lists."),
  "C19": dict(
-   text="Model of the diagnostic Display state machine (tokenizer.rs) and Token::fmt; Lean theorems (in progress, see level_note) for totality, the linear size bound and the "
-        "documented notation on valid wire trees. Correspondence: all byte strings up to 2 (3 thorough) bytes, all heads with extreme declared lengths, truncated/mutated valid "
+   text="Lean theorems (full, no partial fallback) about the model of the diagnostic Display state machine (tokenizer.rs) and Token::fmt, via a one-step transition function dstep "
+        "proved equal to the model's loop (displayInner_succ). display_total (ARBITRARY bytes): the tokenizer finishes and both printer loops terminate within their fuels - explicit "
+        "measure mu <= 6*tokens + stack; every round of the outer loop consumes a token or returns - so an output always exists; decoding problems are part of it (display_error_inline). "
+        "display_bounded (ARBITRARY bytes): renderedLength(display bs) <= 16*|bs| + 149 (the check enforces 16*len+256 on the real output) by a potential function: every emission is paid "
+        "by a consumed token, whose rendering + 5 is <= 16 per input byte its decoding consumed (token_rsize16), separators scheduled by definite containers are charged to the E::N above "
+        "them, which consumes a token or (commit 7258571) reports end of input and returns - false on the pre-fix code. display_documented(_seq): for EVERY valid wire tree (any widths, "
+        "nesting, indefinite containers, chunked strings) display(encW w) = render w, where render is written by recursion over the tree from the syntax summary in lib.rs "
+        "([..], {..}, [_ / {_ markers, h'..', quoted text, (_ ..) chunks with ''_ / \"\"_ for empty ones, n(..), simple(n), null/undefined/true/false, decimal integers, float pieces). "
+        "Correspondence: all byte strings up to 2 (3 thorough) bytes, all heads with extreme declared lengths, truncated/mutated valid "
         "items (real output must stay within 16*len+256 in a length-limited sink and equal the model's), and wire trees whose rendering is compared with the notation rendered "
         "independently from the tree.",
-   design="5/C19", technique="Lean 4 proof (potential function over the control stack; induction over wire trees) + differential correspondence",
-   note="Rust's {:e} float formatting and error message texts are parameters of the model (re-implemented / canonicalised in the orchestrator); the general theorems are being "
-        "added to lean/Minicbor/Thm/C19.lean; the evidence file lists the theorems audited on each run"),
+   design="5/C19", technique="Lean 4 proof (step function + termination measure + potential function over the control stack; abstract sequence lemmas and mutual induction over wire trees) + differential correspondence",
+   note="Rust's {:e} float formatting and error message texts are parameters of the model (re-implemented / canonicalised in the orchestrator): renderedLength charges a fixed 32 per float "
+        "piece and 128 per error text, and counts literal text in characters (every literal the printer writes is ASCII; string payloads are counted in bytes). Output is compared as a list of "
+        "pieces (literal / raw payload / float / error), i.e. the theorem also fixes the segmentation the model uses."),
  "C20": dict(
    text="In the model the feature configuration is an explicit parameter of exactly the cfg-dependent functions (skip alloc/no-alloc, f32/f64 with/without half); every other "
         "function is configuration-free by construction. Lean theorems: without half an f9 item is a type error for f32/f64 and on every other input the accessors are "
@@ -169,21 +187,25 @@ CHECKS = {
         "In the thorough tier the exhaustive 2^32 sweep is judged by the harness reference; the model hash covers a 2^28 (enc f16) subset for time reasons."),
  "C17": dict(
    text="Lean theorems about a model of the bridge (SVal = the tree of Serializer calls, ser = ser.rs method by method, SType/de = de.rs composed with a model of serde's std/derive "
-        "visitors and Content buffer): (a) ser writes exactly one well-formed item for every value (ser_wellformed: ser v = encW of an explicit valid wire tree); (b) the documented "
-        "representation in the RFC 8949 data model (ser_representation: struct = map keyed by field-name text, unit variant = text, other variants = one-entry map name->content, None = "
-        "null, unit = 80, Some/newtype transparent); (c) round trip de t (ser v ++ rest) = ok v rest by mutual structural induction over the typing derivation, unbounded sizes, for every "
-        "type read directly from the wire: all primitives to 64 bits, char, strings, byte buffers, Option, unit, newtype/tuple/struct types, known- and unknown-length sequences and "
-        "maps, tuples, BTreeMap, externally tagged enums with unit/newtype/tuple/struct variants (roundtrip_plain); unknown struct fields ignored; definite and indefinite seq/map/struct "
-        "maps accepted; the Option-in-Option exclusion, K6 (char behind serde's Content) and K7 (unit behind Content) as machine-checked counterexamples, and the refutation of the "
-        "full statement (roundtrip_statement_false). Correspondence: ~100 serde types incl. flatten / internally / adjacently tagged / untagged, judged by the property's own oracle in "
-        "the orchestrator (independent encoder of the documented representation, reference well-formedness parser, de(ser v)==v, consumed==len, accepted re-framings) and compared "
-        "with the model.",
-   design="5/C17", technique="Lean 4 proof (mutual structural induction over typing derivations, loop lemmas, finite decide tables for Decoder::type_of) + differential correspondence with in-orchestrator oracle",
-   note="PARTIAL: the general round-trip proof covers the directly-read types; for the four Content-buffered representations (flatten, internally tagged, adjacently tagged, untagged) "
-        "the full statement is stated (roundtrip_statement), refuted exactly in the K6/K7 classes, proved only on instances (content_roundtrip_examples) and otherwise rests on the "
-        "correspondence run. MODELLED, NOT VERIFIED: serde 1.0.229's derive output, std visitors and private Content/ContentDeserializer machinery (transcribed from the registry "
-        "sources); the f64->f32 coercion behind Content and Content-in-Content nesting are not modelled (model answers `unmodelled`, never reached by the streams). The harness builds "
-        "each value from the op text through serde and refuses to run unless its own Serializer trace equals that text."),
+        "visitors; Content/deAny/fromC = serde's private Content buffer as filled by the bridge's deserialize_any and read by ContentDeserializer/ContentRefDeserializer): "
+        "(a) ser writes exactly one well-formed item for every value (ser_wellformed: ser v = encW of an explicit valid wire tree); (b) the documented representation in the RFC 8949 "
+        "data model (ser_representation: struct = map keyed by field-name text, unit variant = text, other variants = one-entry map name->content, None = null, unit = 80, Some/newtype "
+        "transparent); (c) round trip de t (ser v ++ rest) = ok v rest (equal value, stops exactly after the item), unbounded sizes, by mutual structural induction over typing "
+        "derivations: roundtrip_plain for every directly-read type (all primitives to 64 bits, char, strings, byte buffers, Option, unit, newtype/tuple/struct types, known- and "
+        "unknown-length sequences and maps, tuples, BTreeMap, externally tagged enums with unit/newtype/tuple/struct variants) and roundtrip_content for flattened structs, internally "
+        "tagged, adjacently tagged and untagged enums whose buffered positions avoid char and () (HasTC.good = exactly the complement of K6/K7; via fromC_rt, the round trip through "
+        "the Content buffer); (d) de_any_consumes_one_item for every accepted item in ANY framing (head widths, indefinite containers, chunked strings, f16); unknown struct fields "
+        "ignored; definite and indefinite seq/map/struct maps accepted; (e) the Option-in-Option exclusion, K6 (char behind Content) and K7 (unit behind Content) as machine-checked "
+        "counterexamples and the refutation of the unrestricted statement (roundtrip_statement_false). Correspondence: ~100 serde types incl. flatten / internally / adjacently tagged / "
+        "untagged, judged by the property's own oracle in the orchestrator (independent encoder of the documented representation, reference well-formedness parser, de(ser v)==v, "
+        "consumed==len, accepted re-framings, never-a-different-value on free re-framings) and compared with the model; strict prefixes and byte mutations against the model.",
+   design="5/C17", technique="Lean 4 proof (mutual structural induction over typing derivations, loop lemmas, finite decide tables for Decoder::type_of, reuse of the C03/C04/C05/C06 lemmas) + differential correspondence with in-orchestrator oracle",
+   note="PARTIAL only in what the code does not do: the full statement (roundtrip_statement) is false on the pinned code in exactly two classes, recorded as known findings K6 (char behind "
+        "serde's Content buffer) and K7 (unit `()` / untagged unit variant behind it), each with a machine-checked counterexample; everything else is proved (roundtrip_partial). Untagged enums "
+        "carry the hypothesis that no earlier variant accepts the content (serde's first-match semantics; ambiguous enums are outside the property). MODELLED, NOT VERIFIED: serde 1.0.229's "
+        "derive output, std visitors and private Content/ContentDeserializer machinery (transcribed from the registry sources and tied to the real thing only by the correspondence run); the "
+        "f64->f32 coercion behind Content and Content-in-Content nesting are not modelled (model answers `unmodelled`; never reached by the round-trip / re-framing streams, skipped if a random byte mutation gets there). The harness "
+        "builds each value from the op text through serde and refuses to run unless its own Serializer trace equals that text."),
  "C18": dict(
    text="Lean theorems on the shared universe NType (ints, bool, char, floats, strings, unit, Option, Vec, fixed arrays, tuples, BTreeMap, compositions) with natEnc/natDec transcribing "
         "encode.rs/decode.rs: interop_bytes (bridge bytes = native bytes for every value), natDec_eq_de (without fixed arrays the two decoders are the same function of arbitrary bytes), "
@@ -205,6 +227,52 @@ CHECKS = {
    design="5/C13", technique="Lean 4 proof (layout invariant L++A++F++R, induction over the chunk list; fuel-bounded std write_all loop proved adequate) + differential correspondence with in-orchestrator oracle",
    note="Box<[u8]> and Vec own their allocation, so no adjacent canary exists for them (safe-Rust bounds checks apply). Typed values reach the sinks through Encoder call chains and a "
         "handful of concrete types; that every Encode impl is such a chain is C01/C07's subject. The std::io writer is the harness' Limited writer."),
+ "C14": dict(
+   text="Lean theorems about the model of minicbor-io's blocking Reader/Writer (Frame.lean: the frame grammar, Reader::read_with with std's default read_exact, Writer::write_with with "
+        "std's default write_all, over scripted Read/Write streams whose scripts are lists of arbitrary length), for an arbitrary payload codec: fill_benign / drain_benign (induction over "
+        "the script): under ANY split into short reads/writes and ANY placement of Interrupted the loops obtain / deliver exactly the requested bytes; writer_frames: writing vs appends "
+        "exactly frames(payloads) and each call returns its payload length; writer_rejects_nothing_written and writer_frame_size (every sink behaviour): encode failures / over-long values "
+        "put nothing into the sink, a call never adds more than a prefix of one frame of <= max_len; reader_any_fragmentation + reader_roundtrip: (n+1) reads return the n decoded payloads "
+        "in order then None; reader_truncation: a stream cut anywhere strictly inside a frame (prefix or payload) gives the complete frames' values then UnexpectedEof, never a value; "
+        "reader_resync: an undecodable payload consumes exactly 4+len bytes; reader_alloc (every source behaviour): the buffer is left alone or has length <= max_len; "
+        "reader_oversize_rejected: InvalidLen with the buffer untouched; valCodec_roundtrip / decVal_noPanic: the codec the harness runs satisfies the round-trip hypothesis. "
+        "Correspondence: ~150k fread/fwrite scenarios on the real crate over scripted std::io streams (all compositions of streams <=12 bytes x Interrupted placements, every truncation "
+        "point, bad / empty / over-long frames, max_len in {len-1,len,len+1}, hostile prefixes with the reader's largest allocation request measured by a counting allocator, random longer "
+        "ones incl. error / WouldBlock / Ok(0) events), judged by the orchestrator's own frame/CBOR oracle and compared with the model.",
+   design="5/C14", technique="Lean 4 proof (induction over scripts; list take/drop algebra, omega) + differential correspondence with in-orchestrator oracle; oracle validated against 8 seeded mutants of minicbor-io",
+   note="full strength for the model. The harness payload type is hio::V (u64 | bytes | failing encoder). Modelled, not verified: std's default read_exact/write_all loops, Vec growth "
+        "(the allocation bound is measured on the real code: <= max(64, 2*max_len)). Release-profile arithmetic is modelled for `buffer.len() as u32 - 4` (debug builds would panic for "
+        "payloads of 2^32-4..2^32-1 bytes with max_len >= that; out of reach of the streams). Not constrained by the property and only mirrored by the model: after InvalidLen, or after a "
+        "non-Interrupted I/O error inside a frame, the blocking reader has lost its position in the stream."),
+ "C15": dict(
+   text="Lean theorems about the AsyncReader model (Frame.lean: persistent fields state/buffer/max_len + stream; poll = the `loop` run until the source says Pending or the function returns; "
+        "the future has no fields, so drop is the identity — validated against the code by the drop schedules). pollLoop_spec / poll_inv (induction over source scripts of arbitrary length "
+        "and content): with S = stored part of the current frame ++ undelivered bytes, a poll either keeps representing S (Pending / transient error / end answer), or returns the decoding "
+        "of the first frame of S and represents the rest, or rejects an oversized prefix. run_spec (induction over the caller's poll/drop decisions) and its corollaries "
+        "async_reader_schedule_independent (results are a prefix of decoded payloads then clean ends, for ALL scripts of deliveries k>=1 / Pending / transient errors and ALL decision "
+        "sequences), async_reader_complete (fairness: if the script did not run out and the caller polled >= n+1+#Pending+#error times, ALL values and a clean end were returned), "
+        "async_reader_roundtrip, run_drop_irrelevant, transient_error_once/_resumes (state, buffer, position untouched), async_truncation(_never_value), async_resync, "
+        "async_alloc/offset_le_four (every source behaviour: buffer <= max_len, offsets in range), async_oversize_rejected (InvalidLen; the reader then stays in ReadLen(_,4) and repeats it). "
+        "Correspondence: ~225k aread scenarios on the real AsyncReader with hand-polled futures (no-op waker), futures dropped where the schedule says: all compositions of streams <=10 bytes "
+        "x <=2 Pendings anywhere x all keep/drop decisions; one transient error at every position; every truncation point; bad / over-long frames; random walks; judged by the property's "
+        "oracle on the implementation transcript and compared with the model.",
+   design="5/C15", technique="Lean 4 proof (state/stream representation invariant; induction over scripts and over schedules) + differential correspondence with in-orchestrator oracle; oracle validated against 6 seeded mutants (offset / prefix progress kept in the future, ...)",
+   note="full strength for the model; 'eventually' is stated as the counting theorem async_reader_complete under the explicit fairness hypothesis (script not exhausted). Wakers and real executors "
+        "are not modelled (the harness polls unconditionally). The scripted source honours the AsyncRead contract. No source hook needed."),
+ "C16": dict(
+   text="Lean theorems about the AsyncWriter model (Frame.lean: fields state None|WriteFrom(o), buffer, max_len + sink; write = synchronous head (encode behind a placeholder, max_len check, "
+        "patch prefix, arm state) then the sync loop; futures hold nothing). syncLoop_spec (induction over sink scripts of arbitrary length and content): from offset o the loop either completes "
+        "having appended exactly buffer[o..], or stops (Pending / I/O error) at o' in [o,len) having appended exactly buffer[o..o'], never touching the buffer. Disciplined = the property's "
+        "precondition, defined on the caller-visible transcript (write only after the previous write/sync returned Ok). act_inv / run_inv (induction over acts) => async_writer_bytes: for ALL "
+        "disciplined act sequences and ALL sink scripts (accept k, Pending, Other, Interrupted, accept 0) the sink holds exactly frames(armed values) or, with a frame in flight, the frames before "
+        "it plus a strict prefix of it; async_writer_clean_end; completed_write_reports_length; sync_idle_noop; write_zero_error (+ resumes); transient_error_keeps_offset; "
+        "encode_failure_or_too_long_writes_nothing (from any state); offset_le_buffer; undisciplined_stale_state (machine-checked witness of the documented hazard outside the precondition). "
+        "Correspondence: ~227k awrite scenarios on the real AsyncWriter: all compositions of <=10 frame bytes x <=2 Pendings x all keep / drop-then-sync decisions, one error event at every "
+        "position, rejected values between good ones, idle syncs, random disciplined walks (explicit and implicit drops) judged by the property's oracle; undisciplined walks against the model.",
+   design="5/C16", technique="Lean 4 proof (sync-loop specification by induction over scripts; run invariant by induction over acts) + differential correspondence with in-orchestrator oracle; oracle validated against 7 seeded mutants",
+   note="full strength for the model under Disciplined. Outside the precondition (write over a cancelled frame without sync) the code tears the stream by design (documented 'cancels the transfer'); "
+        "additionally a failing write in that situation leaves a stale WriteFrom(o) into the rewritten buffer (undisciplined_stale_state) — reported, not constrained by the property. "
+        "The scripted sink honours the AsyncWrite contract; wakers/executors not modelled."),
 }
 
 def main():
